@@ -81,6 +81,14 @@ DET = {
  "C12-m6": ("C12", "./check C12 --tier quick -> exit 1 (19-level witness proves 'successfully')", ""),
  "C13-m5": ("C13", "./check C13 --tier quick -> exit 1 (x + p / root + p accepted)", ""),
  "C13-m6": ("C13", "./check C13 --tier quick -> exit 1 (roots buffer with a trailing partial entry panics)", ""),
+ "C04-m5": ("C04", "./check C04 --tier quick -> exit 1 (published root is the tree's for a non-member witness)", ""),
+ "C04-m6": ("C04", "./check C04 --tier quick -> exit 1 (a zero path element above the leaf level is replaced by the empty-subtree root)", "missed at first; boundary values (all 0 / 1 / p-1, zeros at some levels) among the path elements added"),
+ "C09-m5": ("C09", "./check C09 --tier quick -> exit 1 (Poseidon of 4, 5, 6, 8 inputs: round certificate rejected)", ""),
+ "C09-m6": ("C09", "./check C09 --tier quick -> exit 1 (byte-level hash through a short-read reader hashes the first piece only)", ""),
+ "C10-m5": ("C10", "./check C10 --tier quick -> exit 1 (narrow element after a wide one keeps stale high limbs)", ""),
+ "C10-m6": ("C10", "./check C10 --tier quick -> exit 1 (witness with trailing bytes decodes)", ""),
+ "C11-m5": ("C11", "./check C11 --tier quick -> exit 1 (FFI leaves the caller's output descriptor untouched when the result is empty)", "missed at first; the output descriptor handed to every FFI call now designates an earlier result instead of being empty"),
+ "C11-m6": ("C11", "./check C11 --tier quick -> exit 1 (FFI leaf count / sequential batch position after a deletion)", ""),
  "C09-m1": ("C09", "./check C09 --tier quick -> exit 1 (Poseidon of 8 inputs: round certificate rejected)", ""),
  "C09-m2": ("C09", "./check C09 --tier quick -> exit 1 (byte-level / FFI hash of a 4097-byte signal differs from Keccak.tla)", "missed at first; hash-to-field lengths 4095, 4096, 4097 (8192, 10000 thorough) added"),
  "C11-m1": ("C11", "./check C11 --tier quick -> exit 1 (metadata after set_tree differs between FFI and API)", "missed at first; life-cycle scenario and set_tree inside random histories added"),
